@@ -268,6 +268,119 @@ theorem pace_linear (m : ℕ) (lam : ℕ → F) (Y Y' Phi : ℕ → ℕ → F) (
     apply Finset.sum_congr rfl; intro j _; ring
   rw [this]; ring
 
+/-- PACE, shrinkage: if `φ_k` is an eigenvector of `Σ = C + σ²I` for `μ ≠ 0` and `Y` is the certified
+solution of `Y Σ = Z` (what the driver re-checks), the PACE score is the plain projection of the data on
+`φ_k` shrunk by `λ_k/μ`. -/
+theorem pace_shrinkage (m : ℕ) (lam : ℕ → F) (C Y Z Phi : ℕ → ℕ → F) (σ2 μ : F) (i k : ℕ) (hμ : μ ≠ 0)
+    (hcert : ∀ j < m, ∑ a ∈ range m, Y i a * paceSigma C σ2 a j = Z i j)
+    (heig : ∀ a < m, ∑ j ∈ range m, paceSigma C σ2 a j * Phi k j = μ * Phi k a) :
+    scoresPace m lam Y Phi i k = lam k / μ * ∑ j ∈ range m, Z i j * Phi k j := by
+  have h : ∑ j ∈ range m, Z i j * Phi k j = μ * ∑ a ∈ range m, Y i a * Phi k a := by
+    calc ∑ j ∈ range m, Z i j * Phi k j
+        = ∑ j ∈ range m, ∑ a ∈ range m, Y i a * paceSigma C σ2 a j * Phi k j := by
+          apply Finset.sum_congr rfl; intro j hj
+          rw [← hcert j (mem_range.1 hj), Finset.sum_mul]
+      _ = ∑ a ∈ range m, Y i a * ∑ j ∈ range m, paceSigma C σ2 a j * Phi k j := by
+          rw [Finset.sum_comm]
+          apply Finset.sum_congr rfl; intro a _
+          rw [Finset.mul_sum]
+          apply Finset.sum_congr rfl; intro j _; ring
+      _ = μ * ∑ a ∈ range m, Y i a * Phi k a := by
+          rw [Finset.mul_sum]
+          apply Finset.sum_congr rfl; intro a ha
+          rw [heig a (mem_range.1 ha)]; ring
+  unfold scoresPace
+  rw [h]
+  field_simp
+
+/-- With the reported (Mercer) covariance and components that are orthonormal for the plain dot product
+PACE uses, `φ_l` is an eigenvector of `Σ` for `λ_l + σ²`: the classical shrinkage factor
+`λ_l/(λ_l + σ²)` (→ 1 as `σ² → 0`: PACE then is the projection). -/
+theorem pace_shrinkage_orthonormal (m K : ℕ) (lam : ℕ → F) (Y Z Phi : ℕ → ℕ → F) (σ2 : F) (i l : ℕ)
+    (hl : l < K) (hμ : lam l + σ2 ≠ 0)
+    (horth : ∀ k < K, ∑ j ∈ range m, Phi k j * Phi l j = if k = l then 1 else 0)
+    (hcert : ∀ j < m, ∑ a ∈ range m, Y i a * paceSigma (mercer K lam Phi) σ2 a j = Z i j) :
+    scoresPace m lam Y Phi i l = lam l / (lam l + σ2) * ∑ j ∈ range m, Z i j * Phi l j := by
+  classical
+  apply pace_shrinkage m lam (mercer K lam Phi) Y Z Phi σ2 (lam l + σ2) i l hμ hcert
+  intro a ha
+  unfold paceSigma mercer
+  simp_rw [add_mul, Finset.sum_add_distrib, ite_mul, zero_mul]
+  rw [Finset.sum_ite_eq, if_pos (mem_range.2 ha)]
+  have : ∑ j ∈ range m, (∑ k ∈ range K, Phi k a * lam k * Phi k j) * Phi l j = lam l * Phi l a := by
+    simp_rw [Finset.sum_mul]
+    rw [Finset.sum_comm]
+    have : ∀ k ∈ range K, ∑ j ∈ range m, Phi k a * lam k * Phi k j * Phi l j
+        = if k = l then Phi k a * lam k else 0 := by
+      intro k hk
+      have := horth k (mem_range.1 hk)
+      calc ∑ j ∈ range m, Phi k a * lam k * Phi k j * Phi l j
+          = Phi k a * lam k * ∑ j ∈ range m, Phi k j * Phi l j := by
+            rw [Finset.mul_sum]; apply Finset.sum_congr rfl; intro j _; ring
+        _ = if k = l then Phi k a * lam k else 0 := by rw [this]; split <;> simp
+    rw [Finset.sum_congr rfl this, Finset.sum_ite_eq', if_pos (mem_range.2 hl)]
+    ring
+  rw [this]
+
+/-- PACE under normalisation inherits exactly the defect of `transform_defect`: if `Y_S` is the certified
+solution for the specified projected data and `Y_m` the one for `mean/√weight`, then `Y_S + Y_m` is the
+certified solution for the data the code projects — so (by `pace_linear`) the PACE scores of
+`transform(data)` exceed those of `transform(None)` by the PACE scores of `mean/√weight`. -/
+theorem pace_defect (m : ℕ) (mean : ℕ → F) (r : F) (X Sg YS : ℕ → ℕ → F) (Ym : ℕ → F) (i : ℕ)
+    (hS : ∀ j < m, ∑ a ∈ range m, YS i a * Sg a j = transformSpec true mean r X i j)
+    (hm : ∀ j < m, ∑ a ∈ range m, Ym a * Sg a j = mean j / r) :
+    ∀ j < m, ∑ a ∈ range m, (YS i a + Ym a) * Sg a j = transformImpl true mean r X i j := by
+  intro j hj
+  simp_rw [add_mul, Finset.sum_add_distrib]
+  rw [hS j hj, hm j hj]
+  unfold transformImpl transformSpec rescaleBy centerBy
+  simp only [if_true]
+  ring
+
+/-- MFPCA (`MFPCA.transform(method="NumInt")` = sum of the univariate scores): if the multivariate
+eigenfunctions are orthonormal in the product space and the multivariate projected curve lies in their span
+(same coefficients `c_k` in every component), its multivariate scores are those coefficients. -/
+theorem mfpca_scores_of_span (P K : ℕ) (m : ℕ → ℕ) (w : ℕ → ℕ → F) (Z Psi : ℕ → ℕ → ℕ → F) (c : ℕ → F) (i : ℕ)
+    (horth : ∀ k < K, ∀ l < K,
+      innerMultiW P m w (fun p => Psi p k) (fun p => Psi p l) = if k = l then 1 else 0)
+    (hspan : ∀ p < P, ∀ j < m p, Z p i j = ∑ k ∈ range K, c k * Psi p k j) :
+    ∀ l < K, scoresMulti P m w Z Psi i l = c l := by
+  classical
+  intro l hl
+  unfold scoresMulti scoresW
+  have h1 : ∀ p ∈ range P, innerWF (m p) (w p) (Z p i) (Psi p l)
+      = ∑ k ∈ range K, c k * innerWF (m p) (w p) (Psi p k) (Psi p l) := by
+    intro p hp
+    unfold innerWF
+    simp_rw [Finset.mul_sum]
+    rw [Finset.sum_comm]
+    apply Finset.sum_congr rfl; intro j hj
+    rw [hspan p (mem_range.1 hp) j (mem_range.1 hj), Finset.sum_mul, Finset.mul_sum]
+    apply Finset.sum_congr rfl; intro k _; ring
+  rw [Finset.sum_congr rfl h1, Finset.sum_comm]
+  have h2 : ∀ k ∈ range K, ∑ p ∈ range P, c k * innerWF (m p) (w p) (Psi p k) (Psi p l)
+      = if k = l then c k else 0 := by
+    intro k hk
+    rw [← Finset.mul_sum]
+    have := horth k (mem_range.1 hk) l hl
+    unfold innerMultiW at this
+    rw [this]; split <;> simp
+  rw [Finset.sum_congr rfl h2, Finset.sum_ite_eq', if_pos (mem_range.2 hl)]
+
+/-- … and `MFPCA.inverse_transform` (componentwise `√weight_p·(scores Ψ_p) + mean_p`) then reproduces every
+component of the training curve: the multivariate round trip, any number of components, any weights. -/
+theorem mfpca_roundtrip (P K : ℕ) (m : ℕ → ℕ) (w : ℕ → ℕ → F) (Z Psi : ℕ → ℕ → ℕ → F) (mean : ℕ → ℕ → F)
+    (ρ : ℕ → F) (c : ℕ → F) (i : ℕ)
+    (horth : ∀ k < K, ∀ l < K,
+      innerMultiW P m w (fun p => Psi p k) (fun p => Psi p l) = if k = l then 1 else 0)
+    (hspan : ∀ p < P, ∀ j < m p, Z p i j = ∑ k ∈ range K, c k * Psi p k j) :
+    ∀ p < P, ∀ j < m p,
+      inverseTransform K (mean p) (ρ p) (scoresMulti P m w Z Psi) (Psi p) i j = ρ p * Z p i j + mean p j := by
+  intro p hp j hj
+  have hsc := mfpca_scores_of_span P K m w Z Psi c i horth hspan
+  unfold inverseTransform
+  rw [Finset.sum_congr rfl (fun k hk => by rw [hsc k (mem_range.1 hk)]), ← hspan p hp j hj]
+
 /-- Why the multiplier of `inverse_transform` must be `√weight` (the repaired line): a
 multiplier `ρ` reproduces a non-zero rescaled value `z` only if `ρ = √weight`. -/
 theorem inverse_multiplier_unique (ρ r z μ : F) (hz : z ≠ 0) (h : ρ * z + μ = r * z + μ) : ρ = r := by
@@ -355,5 +468,34 @@ example :
   obtain rfl | rfl : a = 0 ∨ a = 1 := by omega
   all_goals obtain rfl | rfl : b = 0 ∨ b = 1 := by omega
   all_goals simp
+
+/-- `pace_shrinkage_orthonormal`: `Σ = diag(2,1) + ½I`, `φ = e₀, e₁` (plain-orthonormal), data `(1,2)`:
+the certified solution is `Y = (2/5, 4/3)` and the scores `2·2/5 = 4/5`, `1·4/3 = 4/3` (the driver's
+answer on `pace 2,1 2,0;0,1 1/2 1,2 1,0;0,1`). -/
+example :
+    let Phi : ℕ → ℕ → ℚ := fun k j => if k = j then 1 else 0
+    let lam : ℕ → ℚ := fun k => if k = 0 then 2 else 1
+    let Y : ℕ → ℕ → ℚ := fun _ a => if a = 0 then 2 / 5 else 4 / 3
+    let Z : ℕ → ℕ → ℚ := fun _ j => if j = 0 then 1 else 2
+    (∀ k < 2, ∑ j ∈ range 2, Phi k j * Phi 0 j = if k = 0 then 1 else 0) ∧
+    (∀ j < 2, ∑ a ∈ range 2, Y 0 a * paceSigma (mercer 2 lam Phi) (1 / 2) a j = Z 0 j) := by
+  refine ⟨?_, ?_⟩
+  · intro k hk; obtain rfl | rfl : k = 0 ∨ k = 1 := by omega
+    all_goals simp
+  · intro j hj; obtain rfl | rfl : j = 0 ∨ j = 1 := by omega
+    all_goals simp [Finset.sum_range_succ, paceSigma, mercer]
+    all_goals norm_num
+
+/-- `mfpca_scores_of_span` / `mfpca_roundtrip`: two components on one point each with weights 1,
+one multivariate eigenfunction `(3/5, 4/5)` of product norm 1. -/
+example :
+    let Psi : ℕ → ℕ → ℕ → ℚ := fun p _ _ => if p = 0 then 3 / 5 else 4 / 5
+    ∀ k < 1, ∀ l < 1, innerMultiW 2 (fun _ => 1) (fun _ _ => (1 : ℚ)) (fun p => Psi p k) (fun p => Psi p l)
+      = if k = l then 1 else 0 := by
+  intro Psi k hk l hl
+  obtain rfl : k = 0 := by omega
+  obtain rfl : l = 0 := by omega
+  simp [innerMultiW, innerWF, Psi, Finset.sum_range_succ]
+  norm_num
 
 end C03
